@@ -195,7 +195,7 @@ def cdf_items(tier):
   for which in ("layer", "fn"):
     for act in ("relu6", "sigmoid"):
       for red in ("mean", "geometric_mean", "none"):
-        for sp, d, units in ((1, 1, 1), (1, 2, 1), (1, 2, 2), (2, 2, 2), (2, 4, 2)):
+        for sp, d, units in ((1, 1, 1), (1, 2, 1), (1, 2, 2), (2, 2, 2), (2, 4, 2), (2, 2, 4)):
           for scaling in (("fixed", "learned_shared", "learned_per_input") if which == "layer"
                           else ("none", "shared", "per_input", "exp")):
             out.append(dict(kind="cdf", which=which, activation=act, reduction=red, sparsity=sp,
